@@ -1271,6 +1271,8 @@ def lib(*names, doc=""):
 
 
 def call_lib(I, fr, name, args, kwargs, node):
+    I.stats["libcalls"] += 1
+    I.emit("lib-call", fr, node, name=name, args=list(args), kwargs={k: v for k, v in kwargs.items() if k != "__builtin__"})
     h = LIB.get(name)
     if h is None and name.startswith("numpy.ndarray."):
         h = LIB.get("numpy." + name.split(".")[-1])
@@ -2033,8 +2035,14 @@ def _where(C):
     if len(C.args) >= 3:
         a, b = C.num(1), C.num(2)
         alg = {}
+
+        def wa(x, at):
+            # documented exception: a literal of magnitude <= 1e-12 selected by np.where is a stand-in for zero
+            if x.has_const() and isinstance(x.const, float) and 0 < abs(x.const) <= 1e-12:
+                return ZERO
+            return x.a(at)
         for at in c.atoms() | a.atoms() | b.atoms():
-            alg[at] = alg_weaken(alg_lub(a.a(at), b.a(at)), c.a(at))
+            alg[at] = alg_weaken(alg_lub(wa(a, at), wa(b, at)), c.a(at))
         sh = bshape(bshape(c.shape, a.shape), b.shape)
         return AV(kind=result_kind(sh, c, a, b) if sh is not None else K_ARRAY, dtype=dtype_join(a.dtype, b.dtype),
                   shape=sh, alg=alg, sign=sign_join(a.sign, b.sign), origin=C.fresh(), tags=tags_of(c, a, b),
